@@ -168,4 +168,74 @@ theorem HistBuf.bufGetLoop {w : World} (p : Pid) (b rem got : Nat) (h : HistBuf 
       · exact genRecord_restores _ (OKexc.set _ (OKexc.of_all _ h b) hx rfl)
       · exact h
 
+theorem HistBuf.bufPutLoop {w : World} (p : Pid) (b rem left : Nat) (h : HistBuf w) : HistBuf (bufPutLoop w p b rem left).1 := by
+  unfold HistBuf at *
+  unfold Sim.bufPutLoop
+  split
+  · simpa using h
+  · rename_i x hx
+    split
+    · (repeat' split) <;> simp [recordBuf_eq] <;>
+        exact genRecord_restores _ (OKexc.set _ (OKexc.of_all _ h b) hx rfl)
+    · split
+      rename_i heq
+      split at heq <;> cases heq <;> simp [recordBuf_eq]
+      · exact genRecord_restores _ (OKexc.set _ (OKexc.of_all _ h b) hx rfl)
+      · exact h
+
+theorem HistBuf.setRecording {w : World} (kind idx : Nat) (on : Bool) (h : HistBuf w) : HistBuf (setRecording w kind idx on) := by
+  by_cases hk : kind = 2
+  · subst hk
+    unfold HistBuf at *
+    unfold Sim.setRecording
+    dsimp only
+    split
+    · show ArrAll (RecOK bufOps (recordBuf { w with bufs := w.bufs.modify idx fun x => { x with recording := on } } idx).now)
+        (recordBuf { w with bufs := w.bufs.modify idx fun x => { x with recording := on } } idx).bufs
+      rw [recordBuf_eq]
+      simp
+      exact genRecord_restores _ (OKexc.modify_flag _ h (fun _ => rfl))
+    · rename_i hon
+      show ArrAll (RecOK bufOps (recordBuf w idx).now) ((recordBuf w idx).bufs.modify idx fun x => { x with recording := on })
+      rw [recordBuf_eq]
+      simp
+      exact RecOK.modify_off _ (genRecord_ok _ h idx) (fun x => by simpa [bufOps] using hon) (fun _ => rfl)
+  · have hf := setRecording_fp w kind idx on
+    refine HistBuf.of_eq (hf.2.2.1 ?_) hf.2.2.2.2.2.1 h
+    unfold recMask
+    split <;> simp_all
+
+theorem HistBuf.preserved : Preserved (fun w => TimeOk w.ev ∧ HistBuf w) := by
+  refine Preserved.withTime (fun hs h => HistBuf.of_eq hs.2.2.1 hs.2.2.2.2.2.1 h) ?_ ?_ ?_ ?_
+  · intro w ev' n hle h
+    exact ArrAll.mono h (fun x ok => ok.mono _ hle)
+  · intro w p c h
+    by_cases hm : (cmdMask c).bufs = false
+    · exact HistBuf.of_eq ((execCmd_fp w p c).2.2.1 hm) (execCmd_fp w p c).2.2.2.2.2.1 h
+    · cases c <;> simp [cmdMask] at hm
+      case bufGet b n => simp only [execCmd]; split; exact h; exact HistBuf.bufGetLoop _ _ _ _ h
+      case bufPut b n => simp only [execCmd]; split; exact h; exact HistBuf.bufPutLoop _ _ _ _ h
+      case recStart kind idx => exact HistBuf.setRecording _ _ _ h
+      case recStop kind idx => exact HistBuf.setRecording _ _ _ h
+  · intro w p f sig h
+    by_cases hm : (frameMask f).bufs = false
+    · exact HistBuf.of_eq ((resumeFrame_fp w p f sig).2.2.1 hm) (resumeFrame_fp w p f sig).2.2.2.2.2.1 h
+    · cases f <;> simp [frameMask] at hm
+      case bufGet b rem got =>
+        simp only [resumeFrame]
+        split
+        · exact h
+        · split
+          · exact HistBuf.bufGetLoop _ _ _ _ (HistBuf.of_eq (by simp) (by simp) h)
+          · exact HistBuf.of_eq (by simp) (by simp) h
+      case bufPut b rem left =>
+        simp only [resumeFrame]
+        split
+        · exact h
+        · split
+          · exact HistBuf.bufPutLoop _ _ _ _ (HistBuf.of_eq (by simp) (by simp) h)
+          · exact HistBuf.of_eq (by simp) (by simp) h
+  · intro w p v st h
+    exact HistBuf.of_eq (by simp) (by simp) h
+
 end CimbaModel.Sim
